@@ -138,14 +138,24 @@ class FunctionCurveBase(PointCurveBase):
         """Finds the param on curve where point is the closest to given point;
         To improve search speed and reliability, an optional starting
         estimation can be supplied."""
-        param_start = super().get_closest_param(point)
         point = np.array(point)
 
-        result = scipy.optimize.minimize(
-            lambda t: f.norm(self.get_point(t[0]) - point), (param_start,), bounds=(self.bounds,)
-        )
+        # nested sampling: take the closest of 15 evenly spaced samples, then look again between
+        # its two neighbours; unlike a gradient-based minimizer started from the coarse guess
+        # this neither stalls at kinks of piecewise curves nor slides to a neighbouring branch
+        lower, upper = self.bounds
+        closest = lower
 
-        return result.x[0]
+        for _ in range(14):
+            params = np.linspace(lower, upper, num=15)
+            distances = [f.norm(self.get_point(t) - point) for t in params]
+            i_closest = int(np.argmin(distances))
+
+            closest = params[i_closest]
+            lower = params[max(i_closest - 1, 0)]
+            upper = params[min(i_closest + 1, len(params) - 1)]
+
+        return closest
 
     def get_point(self, param: float) -> NPPointType:
         self._check_param(param)
